@@ -321,6 +321,10 @@ def judge(plan, ex):
         if all(sig != s0 for s0, _ in f):
             f.append((sig, detail))
 
+    # ---- a new node starts with a queue of its own ("nothing else" in the queue than what its peers sent)
+    if getattr(ex, "stale", None):
+        add("queue/new-node-holds-messages-queued-by-an-earlier-node", repr(ex.stale)[:160])
+
     # ---- threads
     if sc.deadlocked:
         add("thread/deadlock", "all unfinished receive threads are blocked on node locks")
